@@ -99,6 +99,64 @@ def r1(ctx, table):
     ctx.floor(rule, n, "C06.R1.primitives")
 
 
+def r6(ctx, table):
+    rule = "C06.R6"
+    ctx.rule(rule, "T5 path-resolved refusal: along every path of a checking primitive that reaches a success return or an emitting "
+                   "call other than the extension bit, the outcomes of the bound comparisons (resolved through stored flags and "
+                   "tuple scrutinees) say the value is inside the bounds, or the `extensible` parameter was tested true; a branch "
+                   "taken before the out-of-range decision (an early `Ok` for SIZE(0), a guard arm placed first) is reported")
+    P = ctx.program()
+    n = 0
+    for e in table["primitives"]:
+        bs = [b for b in P.find("asn1rs", e["fn"]) if b.def_kind in ("Fn", "AssocFn")]
+        if len(bs) != 1:
+            ctx.fail(rule, "anchor-lost:" + e["fn"], "function …%s matched %d bodies" % (e["fn"], len(bs)))
+            continue
+        b = bs[0]
+        O = X.Origins(b, P)
+        want = set(e["checks"])
+        viol = dict(zip(e["checks"], e["violates"]))
+        ext = ("param:" + e["extensible"]) if e.get("extensible") else None
+        sinks = []
+        for bb, j, st in b.all_statements():
+            if bb in b.reachable and st["k"] == "assign" and st["pl"]["l"] == 0 and not st["pl"]["p"] and \
+                    st["rv"]["k"] == "agg" and st["rv"].get("variant") == "Ok":
+                sinks.append((bb, "`Ok` at %s" % span_loc(st["sp"])))
+        for cs in b.calls():
+            if cs.bb not in b.reachable or not cs.fn:
+                continue
+            if (cs.trait or "").split("::")[-1] in EMIT_TRAITS:
+                if any(contains_cmp(a, want) for a in O.call_args(cs)):
+                    continue     # the extension bit: its argument *is* the comparison result
+                sinks.append((cs.bb, "%s at %s" % (X.short(cs.callee), cs.loc())))
+        bad, undecided, npaths = [], [], 0
+        for bb, what in sinks:
+            paths = R.reach_dnf(b, O, bb, param_atoms=True)
+            if paths is None:
+                undecided.append(what)
+                continue
+            for p in paths:
+                npaths += 1
+                lits = dict(p)
+                out = sorted(k for k, v in viol.items() if lits.get(k) == v)
+                if out and not (ext and lits.get(ext) == "true"):
+                    bad.append("%s is reached with the value outside the bounds (%s)%s" % (
+                        what, ", ".join("%s is %s" % (k, viol[k]) for k in out),
+                        " without `extensible` having been tested true" if ext else ""))
+        n += 1
+        detail = {"function": b.path, "sinks": [w for _, w in sinks], "paths": npaths, "violating_outcomes": viol, "extensible_parameter": e.get("extensible")}
+        if not sinks:
+            ctx.fail(rule, e["id"] + "#anchor-lost", "%s has no success return and no emitting call" % X.short(b.path), "%s:%d" % (b.file, b.line), detail)
+        elif bad:
+            ctx.fail(rule, e["id"] + "#accepts-out-of-range", "; ".join(sorted(set(bad))[:3]), "%s:%d" % (b.file, b.line), detail)
+        elif undecided:
+            ctx.fail(rule, e["id"] + "#undecided", "more than 4096 paths lead to %s: the refusal cannot be decided path by path" % undecided[0],
+                     "%s:%d" % (b.file, b.line), detail)
+        else:
+            ctx.ok(rule, e["id"], detail)
+    ctx.floor(rule, n, "C06.R6.primitives")
+
+
 def r2(ctx, table):
     rule = "C06.R2"
     ctx.rule(rule, "T5 (kinds): every Writer method of UperWriter that has constraint constants hands C::MIN / C::MAX / C::EXTENSIBLE "
@@ -191,3 +249,4 @@ def run(ctx):
     r4(ctx)
     from .c02 import r5 as rebuilders_keep_the_marker
     rebuilders_keep_the_marker(ctx, rule="C06.R5")
+    r6(ctx, table)
